@@ -224,6 +224,20 @@ def grid(inp):
         m = 4
         n1 = max(n1, 2 * m)
         f = lambda n: spectrum.minvar(x, m, 1.0, n)[0]
+    elif fn == "pmtm":
+        n1 = max(n1, N)
+        m_ = inp.get("method", "unity")
+        xx = np.cos(0.9 * np.arange(N)) * 5 + 0.05 * x            # large dynamic range
+        a1 = spectrum.pmtm(xx, 2.5, 2, NFFT=n1, method=m_)
+        a2 = spectrum.pmtm(xx, 2.5, 2, NFFT=c * n1, method=m_)
+        ok = close(a2[0][:, ::c], a1[0], 1e-8) and close(a1[2], a2[2], 1e-12)
+        if m_ == "adapt":
+            # weights agree to the convergence tolerance of the iteration: compare robustly
+            r = np.median(np.abs(a2[1][::c, :] - a1[1]) / (np.abs(a1[1]) + 1e-12))
+            ok = ok and r < 1e-3
+        else:
+            ok = ok and close(a1[1], a2[1], 1e-12)
+        return ok, "pmtm(%s) on grids %d and %d" % (m_, n1, c * n1)
     elif fn == "eigen":
         P, NSIG, method = int(inp["P"]), int(inp["NSIG"]), inp["method"]
         n1 = max(n1, P + 1)
